@@ -27,7 +27,42 @@ ASSUMPTIONS = [
 
 
 @st.composite
+def _long_case(draw, tier):
+    """two or three trains, at least one with more than 256 spikes (up to ~1100): regular
+    with a few spikes taken out and a few extra gaps, so the pooled ISIs are not all equal"""
+    q = draw(st.sampled_from([1, 2, 8]))
+    trains = []
+    n = 0
+    for _ in range(draw(st.integers(2, 3))):
+        k = draw(st.sampled_from([257, 258, 300, 511, 512, 513, 514, 700, 1024, 1025, 1026, 40]
+                                 if trains else [257, 258, 300, 512, 513, 514, 1025, 1100]))
+        per = draw(st.sampled_from([1, 2, 3]))
+        a = draw(st.integers(0, 5))
+        tr = [a + per * j for j in range(k)]
+        for _ in range(draw(st.integers(0, 4))):
+            j = draw(st.integers(0, len(tr) - 1))
+            d = draw(st.integers(1, 9))
+            tr = tr[:j] + [v + d for v in tr[j:]]      # one longer gap
+        for _ in range(draw(st.integers(0, 3))):
+            del tr[draw(st.integers(0, len(tr) - 1))]
+        trains.append(tr)
+        n = max(n, tr[-1])
+    n += draw(st.integers(0, 7))
+    k0 = draw(st.integers(-2000, 50)) * q
+    c = gen.to_times(dict(q=q, k0=k0, n=n, trains=trains))
+    c["long_auto"] = True
+    c["m1"] = c["m2"] = 0.0
+    c["ri"] = draw(st.booleans())
+    c["max_tau"] = None
+    c["compiled"] = draw(st.booleans())
+    c["reconcile_off"] = draw(st.booleans())
+    return c
+
+
+@st.composite
 def _case(draw, tier):
+    if draw(st.integers(0, 39)) == 0:
+        return draw(_long_case(tier))
     nmax = 3 if tier == "quick" else 4
     g = draw(gen.int_train_lists(2, nmax, related=draw(st.booleans()),
                                  max_spikes=7 if tier == "quick" else 16))
@@ -85,6 +120,8 @@ def _pool(case):
 
 def classify(case):
     labels = ["N=%d" % len(case["trains"]), "compiled" if case["compiled"] else "fallback"]
+    if case.get("long_auto"):
+        return labels + ["train_longer_than_256_spikes"]
     pool = _pool(case)
     m2 = Fr(case["m2"])
     if any(m2 > p for p in pool) and any(m2 <= p for p in pool):
@@ -113,6 +150,8 @@ def _auto_interesting(case):
 
 
 def nontrivial(case):
+    if case.get("long_auto"):
+        return True
     pool = _pool(case)
     m2 = Fr(case["m2"])
     return (any(m2 > p for p in pool) and any(m2 <= p for p in pool)) or \
@@ -151,9 +190,41 @@ def _same_exact(a, b):
                                equal_nan=True))
 
 
+def _judge_long(case, ctx, sts):
+    """'auto' for trains with several hundred spikes: the threshold is the RMS of ALL pooled
+    ISIs, and the measures with 'auto' equal the measures with that number"""
+    import pyspike
+    from pyspike.isi_lengths import default_thresh
+    trs, T0, T1 = ps.fr_trains(case)
+    thr = math.sqrt(O.default_thresh_sq(trs, T0, T1))
+    got = ctx.call("default_thresh", default_thresh, sts)
+    ctx.check(abs(float(got) - thr) <= 1e-12 * max(1.0, thr), "default_thresh",
+              lambda: "trains of %r spikes: default_thresh=%r, RMS of the pooled ISIs=%r"
+              % ([len(t) for t in trs], float(got), thr))
+    rok = {"Reconcile": False} if case.get("reconcile_off") else {}
+    rik = {"RI": True} if case["ri"] else {}
+    for name, fn, args, extra in (
+            ("isi_distance", pyspike.isi_distance, (sts[0], sts[1]), {}),
+            ("isi_distance_multi", pyspike.isi_distance, (sts,), {}),
+            ("spike_distance", pyspike.spike_distance, (sts[0], sts[1]), rik),
+            ("spike_sync_multi", pyspike.spike_sync, (sts,), {})):
+        pool = sts if len(args) == 1 else list(args)
+        t_ = math.sqrt(O.default_thresh_sq(trs if len(args) == 1 else trs[:2], T0, T1))
+        ra = float(ctx.call(name + ":auto", fn, *args, MRTS="auto", **rok, **extra))
+        rt = float(ctx.call(name + ":explicit", fn, *args, MRTS=t_, **extra))
+        # the explicit threshold is the correctly rounded RMS; the library's own float
+        # may differ in the last bits, which moves the result by the same relative amount
+        ctx.check(abs(ra - rt) <= 1e-9 * max(1.0, abs(rt)), "auto_differs_from_explicit:" + name,
+                  lambda: "%s: 'auto' gives %r, MRTS=%r gives %r (trains of %r spikes)"
+                  % (name, ra, t_, rt, [len(t) for t in trs]))
+        del pool
+
+
 def run_case(case, ctx):
     ctx.set_backend(case["compiled"])
     sts = ps.trains(case)
+    if case.get("long_auto"):
+        return _judge_long(case, ctx, sts)
     ps.judge_twice(case, ctx, sts, _judge)
 
 
@@ -226,6 +297,18 @@ def _judge(case, ctx, sts):
                 ctx.check(same, "small_mrts_changes_result:" + k,
                           lambda: "%s %s: MRTS=%r (<= every ISI) gives %r, MRTS=0 gives %r"
                           % (fname, k, m1, a_, b_))
+            if fname == "multi":
+                thr_f = 0.0
+                f0 = ctx.call("filter:zero", pyspike.filter_by_spike_sync, sts, thr_f,
+                              MRTS=0, **mtk)
+                f1 = ctx.call("filter:m1", pyspike.filter_by_spike_sync, sts, thr_f,
+                              MRTS=m1, **mtk)
+                ctx.check(len(f0) == len(f1) and all(
+                    np.array_equal(np.asarray(u.spikes), np.asarray(v.spikes))
+                    for u, v in zip(f0, f1)), "small_mrts_changes_result:filter",
+                    lambda: "filter_by_spike_sync(threshold 0): MRTS=%r (<= every ISI) keeps %r, "
+                            "MRTS=0 keeps %r" % (m1, [list(v.spikes) for v in f1],
+                                                 [list(u.spikes) for u in f0]))
         # (d)+(e) 'auto'
         sel = [trs[k] for k in involved]
         sq = O.default_thresh_sq(sel, T0, T1)
